@@ -87,6 +87,10 @@ INFO = {
                "integer-dtype wavelengths in pm/fm"),
 }
 
+# round 2 (s3..s5): descriptions derived from each patch and its demo
+for _k, _v in json.loads((ROOT / "tools" / "seedinfo_round2.json").read_text()).items():
+    INFO[_k] = (_v["what"], _v["needs"])
+
 
 def main():
     rows = []
@@ -101,7 +105,10 @@ def main():
         chk = m["checks"][m["property"]]
         facets = sorted({v.split("violation in ")[1].split(":")[0] for v in chk["violations"] if "violation in " in v})
         valid = (m["demo_clean_exit"] == 0 and m["demo_patched_exit"] != 0 and not m.get("suite", {}).get("newly_failing"))
-        rows.append((d.name, m["property"], "yes" if valid else "NO", "caught" if m["detected"] else "MISSED",
+        caught = "caught" if m["detected"] else "MISSED"
+        if m["detected"] and m.get("first_run_missed"):
+            caught = "caught after strengthening"
+        rows.append((d.name, m["property"], "yes" if valid else "NO", caught,
                      ", ".join(facets), m.get("needs_to_manifest", "")))
     print("| seed | property | valid seed | quick check | facets that fired | needs to manifest |")
     print("|---|---|---|---|---|---|")
